@@ -90,6 +90,10 @@ pub fn cmd_registry(args: &[String]) -> i32 {
     conv(&mut out, "TlsVersion", "lowerhex", 65535, |v| format!("{:x}", TlsVersion(v as u16)) == format!("{:x}", v));
     conv(&mut out, "TlsExtensionType", "from", 65535, |v| u16::from(TlsExtensionType(v as u16)) as u32 == v);
     conv(&mut out, "TlsExtensionType", "from_u16", 65535, |v| TlsExtensionType::from_u16(v as u16).0 as u32 == v);
+    // method syntax on the newtype itself (whatever it resolves to: an inherent method or the integer's through Deref)
+    conv(&mut out, "TlsCipherSuiteID", "be_bytes_method", 65535, |v| { let id = TlsCipherSuiteID(v as u16); id.to_be_bytes() == [(v >> 8) as u8, v as u8] && id.to_le_bytes() == [v as u8, (v >> 8) as u8]
+        && id.leading_zeros() == (v as u16).leading_zeros() && id.swap_bytes() == (v as u16).swap_bytes() });
+    conv(&mut out, "TlsCompressionID", "methods_through_deref", 255, |v| { let c = TlsCompressionID(v as u8); c.to_be_bytes() == [v as u8] && c.count_ones() == (v as u8).count_ones() });
     conv(&mut out, "TlsCipherSuiteID", "from", 65535, |v| u16::from(TlsCipherSuiteID(v as u16)) as u32 == v);
     conv(&mut out, "TlsCipherSuiteID", "deref", 65535, |v| *TlsCipherSuiteID(v as u16) as u32 == v);
     conv(&mut out, "TlsCipherSuiteID", "asref", 65535, |v| *AsRef::<u16>::as_ref(&TlsCipherSuiteID(v as u16)) as u32 == v);
@@ -144,6 +148,8 @@ pub fn cmd_registry(args: &[String]) -> i32 {
         macro_rules! p8 { ($tn:expr, $T:ident) => {{
             conv(&mut out, $tn, "nom_parse", 255, |v| { let b = [v as u8, 0xAA]; matches!(<$T>::parse(&b), Ok((rem, x)) if rem == &b[1..] && x.0 as u32 == v) });
         }}; }
+        conv(&mut out, "SignatureAndHashAlgorithm", "nom_parse", 65535, |v| { let b = [(v >> 8) as u8, v as u8, 0xAA];
+            matches!(SignatureAndHashAlgorithm::parse(&b), Ok((rem, x)) if rem == &b[2..] && x.hash.0 as u32 == v >> 8 && x.sign.0 as u32 == v & 0xff) });
         p16!("TlsVersion", TlsVersion); p16!("TlsCipherSuiteID", TlsCipherSuiteID); p16!("TlsExtensionType", TlsExtensionType); p16!("NamedGroup", NamedGroup);
         p16!("SignatureScheme", SignatureScheme);
         p8!("TlsRecordType", TlsRecordType); p8!("TlsHandshakeType", TlsHandshakeType); p8!("TlsCompressionID", TlsCompressionID);
